@@ -398,6 +398,8 @@ class BaseWindowSplitter(BaseSplitter):
         y = _check_y(y)
         fh = _check_fh(self.fh)
         step_length = check_step_length(self.step_length)
+        check_window_length(self.window_length, "window_length")
+        check_window_length(self.initial_window, "initial_window")
 
         if hasattr(self, "initial_window") and self.initial_window is not None:
             start = self.initial_window
